@@ -238,6 +238,16 @@ def judge_random(case, rec):
             if not _vec_close(Sf, want) or Sf.shape != want.shape:
                 rec.violation("%s under hide/order of the date dimension is not the payload-"
                               "order smoothing re-indexed" % sname, "display-" + sname)
+        # --- the UNSMOOTHED output read after its smoothed form on the same partition is
+        # --- still the unsmoothed one (on `ref` it was read before)
+        Uf = np.asarray(getattr(full, uname), dtype=float)
+        Ur = np.asarray(getattr(ref, uname), dtype=float)
+        wantU = Ur[np.ix_([rB.index(s_) for s_ in rT], [cB.index(s_) for s_ in cT])]
+        rec.compared()
+        if (Uf.size or wantU.size) and (Uf.shape != wantU.shape or not _vec_close(Uf, wantU)):
+            rec.violation("%s read after %s on the same partition differs from its value on a "
+                          "partition where it was read first" % (uname, sname),
+                          "unsmoothed-after-" + sname)
     # --- smoothed scale mean = scale mean of the smoothed proportions
     values = orc.rows.numeric_values()
     ssm = ref.smoothed_columns_scale_mean
